@@ -214,8 +214,10 @@ fn generate_global_branch(
                     cachelito_core::InvalidationRegistry::global().register_callback(
                         #fn_name_str,
                         move || {
+                            // one critical section for both structures (queue lock first)
+                            let mut order = #order_ident.lock();
                             #cache_ident.write().clear();
-                            #order_ident.lock().clear();
+                            order.clear();
                         }
                     );
                 });
